@@ -9,7 +9,7 @@ FILES = lambda e: is_field(e, "files")
 SYNC_RX = r"fs::File::sync_(data|all)$"
 WRITE_RX = r"io::Write::write_all$|io::Write::write$|FileExt::write_all_at$|FileExt::write_at$|io::Write::write_vectored$"
 FILES_REMOVERS = r"Vec::<T, A>::(remove|pop|clear|truncate|retain|retain_mut|swap_remove|drain|split_off|dedup\w*|pop_if)$"
-FILES_MUTATORS_OK = r"Vec::<T, A>::(push|remove)$|ops::IndexMut<I>>::index_mut$"
+FILES_MUTATORS_OK = r"Vec::<T, A>::(push|remove)$|ops::IndexMut<I>>::index_mut$|slice::<impl \[T\]>::(first_mut|last_mut|get_mut|iter_mut)$|ops::DerefMut>?::deref_mut$"
 REORDER = r"::(reverse|sort|sort_by|sort_by_key|sort_unstable\w*|swap|rev|pop|swap_remove|insert|rotate_left|rotate_right|select_nth\w*)$"
 
 
@@ -17,9 +17,32 @@ def sync_receiver(g, n):
     return event_args(g, n)[0]
 
 
+def _is_first(e):
+    """files.first() / files.first_mut() (unwrapped): element 0"""
+    return isinstance(e, tuple) and e and e[0] == "okval" and call_is(e[1], r"slice::<impl \[T\]>::(first|first_mut)$|Vec::<T, A>::(first|first_mut)$") \
+        and FILES(call_arg(e[1], 0))
+
+
 def is_sync_of_index(g, n, k=None):
     r = sync_receiver(g, n)
+    if is_field(r, "f") and _is_first(r[1]) and (k is None or k == 0):
+        return True
     return is_field(r, "f") and is_index(r[1], FILES, k)
+
+
+def files_empty_fact(g, cn, v):
+    """learned: FlushWorker.files is empty - `files.is_empty()` true, or `files.first()/first_mut()/last()/last_mut()/get(0)` gave None"""
+    if cn is None:
+        return False
+    t = g.term(cn)
+    a = event_args(g, cn)
+    if not a or not FILES(a[0]):
+        return False
+    if cmatch(t, r"Vec::<T, A>::is_empty$|slice::<impl \[T\]>::is_empty$") and v == "true":
+        return True
+    if cmatch(t, r"(slice::<impl \[T\]>|Vec::<T, A>)::(first|first_mut|last|last_mut|split_first|split_last|split_first_mut|split_last_mut)$") and v == "None":
+        return True
+    return False
 
 
 def is_sync_of_last(g, n):
@@ -35,7 +58,10 @@ def len_le1_fact(g, origin, v):
     op, a, b = e[1], e[2], e[3]
 
     def is_len(x):
-        return call_is(x, r"Vec::<T, A>::len$") and FILES(call_arg(x, 0))
+        if call_is(x, r"Vec::<T, A>::len$|slice::<impl \[T\]>::len$") and FILES(call_arg(x, 0)):
+            return True
+        # the length test of a slice pattern (`while let [oldest, _, ..] = files.as_slice()`)
+        return isinstance(x, tuple) and len(x) == 3 and x[0] == "unop" and x[1] in ("PtrMetadata", "Len") and FILES(x[2])
     if is_len(a) and is_const(b):
         c = int(b[1])
         table = {("Gt", 1, "false"), ("Ge", 2, "false"), ("Le", 1, "true"), ("Lt", 2, "true"), ("Eq", 1, "true"),
@@ -195,6 +221,12 @@ def no_sync_requested(ctx, g, origin, v):
         return True
     if v == "false" and exists_sync_flag(ctx, g, origin):
         return True
+    # `batch.iter().any(|w| w.sync).then(|| sync..)` / `.then_some(..)` came out None: the same "nobody asked" branch
+    if cn is not None and v == "None" and cmatch(g.term(cn), r"bool(::<impl bool>)?::(then|then_some)$"):
+        a = event_args(g, cn)
+        c0 = a[0] if a else None
+        if isinstance(c0, tuple) and len(c0) > 3 and c0[0] == "call" and any_sync_closure(ctx, g, c0[3]):
+            return True
     return False
 
 
@@ -282,7 +314,7 @@ def run(ctx, rep):
             return None
         if n in write_set or n in push_set:
             synced = False
-        if n in mut_set and not cmatch(g.term(n), r"IndexMut<I>>::index_mut$"):
+        if n in mut_set and not cmatch(g.term(n), r"IndexMut<I>>::index_mut$|slice::<impl \[T\]>::(first_mut|last_mut|get_mut|iter_mut)$|ops::DerefMut>?::deref_mut$|Vec::<T, A>::(as_mut_slice|iter_mut)$"):
             le1 = False
         for origin, v in norm_learn(learn):
             cn = origin_call(origin)
@@ -290,8 +322,7 @@ def run(ctx, rep):
                 return None      # dead by R04.5: every request has sync = true
             if len_le1_fact(g, origin, v):
                 le1 = True
-            if cn is not None and cmatch(g.term(cn), r"Vec::<T, A>::is_empty$") and v == "true" \
-                    and FILES(event_args(g, cn)[0]):
+            if files_empty_fact(g, cn, v):
                 le1, synced = True, True      # no file is listed at all: nothing is unsynced
             if cn in sync_set and v in OKV:
                 if is_sync_of_last(g, cn) or (is_sync_of_index(g, cn, 0) and le1):
@@ -337,14 +368,17 @@ def run(ctx, rep):
 
     def step3(ms, pi, qi, learn):
         n = P.gnode(pi)
-        if n in mut_set and not cmatch(g.term(n), r"IndexMut<I>>::index_mut$"):
+        if n in mut_set and not cmatch(g.term(n), r"IndexMut<I>>::index_mut$|slice::<impl \[T\]>::(first_mut|last_mut|get_mut|iter_mut)$|ops::DerefMut>?::deref_mut$|Vec::<T, A>::(as_mut_slice|iter_mut)$"):
             ms = frozenset()
         for origin, v in norm_learn(learn):
             cn = origin_call(origin)
             if cn in sync_set and v in OKV and is_sync_of_index(g, cn):
                 r = sync_receiver(g, cn)[1]
-                k = call_arg(r, 1) if r[0] in ("call", "ret") else r[2]
-                if is_const(k):
+                if _is_first(r):
+                    k = ("const", "0")
+                else:
+                    k = call_arg(r, 1) if r[0] in ("call", "ret") else (r[2] if len(r) > 2 else None)
+                if k is not None and is_const(k):
                     ms = ms | {str(k[1])}
         return ms
 
